@@ -34,11 +34,11 @@ def _sparse():
 class BinPackH(Harness):
     ENV = "BinPack"
     QUICK = ["BinPack@3x5x4x3x2x2"]
-    THOROUGH = ["BinPack@3x4x4x3x2x2", "BinPack"]
+    THOROUGH = ["BinPack@3x4x4x3x2x2", "BinPack@2x5x4x3x3x2"]
     INVALID = "terminate"
     BMC = True
     BMC_EMITTED = True
-    BMC_DEPTH = {"quick": 2, "thorough": 3}
+    BMC_DEPTH = {"quick": 2, "thorough": 2}     # depth 3 measured: > 3000 s per job even on the 3x2x2 container
     RESET_INV = False
     MULTI_DISCRETE = True
     REWARD_VARIANTS = [{}, {"reward_fn": _sparse()}]
